@@ -328,6 +328,12 @@ LimitDom ==
   \cup { [k |-> "SDES", chunks |-> [i \in 1..20 |-> Chunk1(i, << Item(1, IF i = 11 THEN n ELSE 2) >>)]] : n \in {255, 256} }
   \cup { TwccWithDelta(3, pos, 2, t) : pos \in 1..3, t \in {-32769, -32768, 32767, 32768, 70000} }
   \cup { [MkTWCC(1, << Rl(1, 1) >>, << Dl(1, 7) >>, FALSE) EXCEPT !.hdr.c = c] : c \in {32, 63} }
+  \* a delta beyond its range next to a delta of the other size with the same tick count (an encoder that derives
+  \* one delta's octets from its neighbour's must keep the range check of each)
+  \cup { MkTWCC(2, << Sv2(<< 2, 1 >>) >>, << Dl(2, t), Dl(1, t) >>, FALSE) : t \in {-1, 256, 300, 511, 32767} }
+  \cup { MkTWCC(3, << Sv2(<< 1, 2, 1 >>) >>, << Dl(1, 7), Dl(2, t), Dl(1, t) >>, FALSE) : t \in {256, 1000} }
+  \cup { MkTWCC(3, << Sv2(<< 1, 1, 2 >>) >>, << Dl(1, 7), Dl(1, t), Dl(2, t) >>, FALSE) : t \in {-1, 256, 1000} }
+  \cup { MkTWCC(3, << Rl(1, 3) >>, << Dl(1, 7), Dl(1, t), Dl(1, t) >>, FALSE) : t \in {-1, 256} }
   \* tick counts beyond 32 bits whose low 32 bits are inside the range (a narrowing conversion would accept them)
   \cup { MkTWCC(2, << Rl(t, 2) >>, << [Dl(t, k) EXCEPT !.big = g], Dl(t, 9) >>, FALSE) : t \in {1, 2}, k \in {0, 5, 255}, g \in {1, -1, 2, 65536} }
 
@@ -500,6 +506,12 @@ RelDom ==
     [k |-> "SDES", chunks |-> << Chunk1(2, << Item(1, 3) >>), Chunk1(1, << Item(1, 3) >>) >>],
     [BaseCCFB EXCEPT !.blocks = << CcBlock(D4(5), 10, << Mb(TRUE, 1, 2), Mb(TRUE, 1, 3) >>), CcBlock(D4(5), 12, << Mb(TRUE, 1, 4) >>) >>],
     [BaseCCFB EXCEPT !.blocks = << CcBlock(D4(1), 10, << Mb(TRUE, 1, 2) >>) >>],
+    \* one stream continued in the next block (same source, the sequence ranges meet), also over the 16-bit wrap and in a chain of three
+    [BaseCCFB EXCEPT !.blocks = << CcBlock(D4(5), 10, << Mb(TRUE, 1, 2), Mb(TRUE, 1, 3) >>), CcBlock(D4(5), 12, << Mb(TRUE, 1, 4), Mb(FALSE, 0, 0), Mb(TRUE, 2, 6) >>) >>],
+    [BaseCCFB EXCEPT !.blocks = << CcBlock(D4(5), 65533, << Mb(TRUE, 1, 2), Mb(TRUE, 1, 3), Mb(TRUE, 0, 3) >>), CcBlock(D4(5), 0, << Mb(TRUE, 1, 4), Mb(TRUE, 2, 6) >>) >>],
+    [BaseCCFB EXCEPT !.blocks = << CcBlock(D4(5), 10, << Mb(TRUE, 1, 2), Mb(TRUE, 1, 3) >>), CcBlock(D4(5), 12, << Mb(TRUE, 1, 4), Mb(TRUE, 2, 6) >>), CcBlock(D4(5), 14, << Mb(TRUE, 3, 4), Mb(TRUE, 2, 7) >>) >>],
+    [BaseCCFB EXCEPT !.blocks = << CcBlock(D4(5), 10, << Mb(TRUE, 1, 2), Mb(TRUE, 1, 3) >>), CcBlock(D4(9), 12, << Mb(TRUE, 1, 4), Mb(TRUE, 2, 6) >>) >>],
+    [BaseCCFB EXCEPT !.blocks = << CcBlock(D4(5), 12, << Mb(TRUE, 1, 2), Mb(TRUE, 1, 3) >>), CcBlock(D4(5), 10, << Mb(TRUE, 1, 4), Mb(TRUE, 2, 6) >>) >>],
     MkTWCC(5, << Rl(1, 2), Rl(1, 3) >>, [i \in 1..5 |-> Dl(1, 4)], FALSE),
     MkTWCC(4, << Rl(1, 2), Rl(2, 2) >>, << Dl(1, 1), Dl(1, 2), Dl(2, 3), Dl(2, 4) >>, FALSE),
     [MkTWCC(1, << Rl(1, 1) >>, << Dl(1, 7) >>, FALSE) EXCEPT !.media = D4(1)],
